@@ -757,3 +757,128 @@ pub mod decode {
         v
     }
 }
+
+/// Header-crate side of the reference model (Multiboot2 header and its tags).
+pub mod hd {
+    use super::*;
+    pub const MAGIC: u32 = 0xE852_50D6;
+    pub const END: u16 = 0;
+    pub const INFO_REQ: u16 = 1;
+    pub const ADDRESS: u16 = 2;
+    pub const ENTRY: u16 = 3;
+    pub const CONSOLE: u16 = 4;
+    pub const FRAMEBUFFER: u16 = 5;
+    pub const MODULE_ALIGN: u16 = 6;
+    pub const EFI_BS: u16 = 7;
+    pub const ENTRY_EFI32: u16 = 8;
+    pub const ENTRY_EFI64: u16 = 9;
+    pub const RELOCATABLE: u16 = 10;
+    pub const KIND_NAMES: [&str; 11] = ["End", "InformationRequest", "Address", "EntryAddress", "ConsoleFlags", "Framebuffer", "ModuleAlign", "EfiBS", "EntryAddressEFI32", "EntryAddressEFI64", "Relocatable"];
+    pub fn kind_name(t: u16) -> &'static str {
+        KIND_NAMES.get(t as usize).copied().unwrap_or("?")
+    }
+    pub fn fixed_size(t: u16) -> usize {
+        match t {
+            END | MODULE_ALIGN | EFI_BS | INFO_REQ => 8,
+            ADDRESS | RELOCATABLE => 24,
+            ENTRY | CONSOLE | ENTRY_EFI32 | ENTRY_EFI64 => 12,
+            FRAMEBUFFER => 20,
+            _ => 8,
+        }
+    }
+    pub fn tag(typ: u16, flags: u16, body: &[u8]) -> Vec<u8> {
+        let mut v = Vec::new();
+        v.extend_from_slice(&typ.to_le_bytes());
+        v.extend_from_slice(&flags.to_le_bytes());
+        v.extend_from_slice(&((8 + body.len()) as u32).to_le_bytes());
+        v.extend_from_slice(body);
+        v
+    }
+    pub fn words(typ: u16, flags: u16, w: &[u32]) -> Vec<u8> {
+        let mut b = Vec::new();
+        for x in w {
+            b.extend_from_slice(&x.to_le_bytes());
+        }
+        tag(typ, flags, &b)
+    }
+    pub fn end_tag() -> Vec<u8> {
+        tag(END, 0, &[])
+    }
+    /// A spec-conformant sample of kind `t` with marker values in free fields.
+    pub fn sample(t: u16, salt: u32, n: usize) -> Vec<u8> {
+        let f = (salt & 1) as u16;
+        match t {
+            END => end_tag(),
+            INFO_REQ => words(t, f, &(0..n as u32).map(|i| [1, 6, 9, 17, 21, 0x1337, 3, 8][(i as usize + salt as usize) % 8] + 0).collect::<Vec<_>>()),
+            ADDRESS => words(t, f, &[0x0010_0000 + salt, 0x0010_1000 + salt, 0x0020_2000 + salt, 0x0030_3000 + salt]),
+            ENTRY | ENTRY_EFI32 | ENTRY_EFI64 => words(t, f, &[0x0010_4A5B + salt * 0x101 + t as u32]),
+            CONSOLE => words(t, f, &[salt & 1]),
+            FRAMEBUFFER => words(t, f, &[1024 + salt, 768 + salt * 3, 32 - salt]),
+            MODULE_ALIGN | EFI_BS => tag(t, f, &[]),
+            RELOCATABLE => words(t, f, &[0x0020_0000 + salt, 0x3FFF_F000 + salt, 0x1000 << (salt % 4), salt % 3]),
+            _ => tag(t, f, &[]),
+        }
+    }
+    /// Build a header: 16-byte basic header + tags padded to 8; length and
+    /// checksum computed.
+    pub fn header(arch: u32, tags: &[Vec<u8>], pad: u8) -> Vec<u8> {
+        let mut v = vec![0u8; 16];
+        for t in tags {
+            v.extend_from_slice(t);
+            while v.len() % 8 != 0 {
+                v.push(pad);
+            }
+        }
+        let len = v.len() as u32;
+        wr32(&mut v, 0, MAGIC);
+        wr32(&mut v, 4, arch);
+        wr32(&mut v, 8, len);
+        fix_checksum(&mut v);
+        v
+    }
+    pub fn fix_checksum(v: &mut [u8]) {
+        let c = 0u32.wrapping_sub(rd32(v, 0)).wrapping_sub(rd32(v, 4)).wrapping_sub(rd32(v, 8));
+        wr32(v, 12, c);
+    }
+
+    /// Reference record list for one header tag (`t` holds at least `size` bytes).
+    pub fn decode(kind: u16, t: &[u8]) -> Vec<Rec> {
+        let mut v = Vec::new();
+        let size = rd32(t, 4) as usize;
+        let mut u = |name: &'static str, x: u64| v.push(Rec { name, val: Val::U(x) });
+        u("typ", rd16(t, 0) as u64);
+        u("flags", rd16(t, 2) as u64);
+        u("size", size as u64);
+        u("size_of_val", round8(size) as u64);
+        match kind {
+            ADDRESS => {
+                u("header_addr", rd32(t, 8) as u64);
+                u("load_addr", rd32(t, 12) as u64);
+                u("load_end_addr", rd32(t, 16) as u64);
+                u("bss_end_addr", rd32(t, 20) as u64);
+            }
+            ENTRY | ENTRY_EFI32 | ENTRY_EFI64 => u("entry_addr", rd32(t, 8) as u64),
+            CONSOLE => u("console_flags", rd32(t, 8) as u64),
+            FRAMEBUFFER => {
+                u("width", rd32(t, 8) as u64);
+                u("height", rd32(t, 12) as u64);
+                u("depth", rd32(t, 16) as u64);
+            }
+            RELOCATABLE => {
+                u("min_addr", rd32(t, 8) as u64);
+                u("max_addr", rd32(t, 12) as u64);
+                u("align", rd32(t, 16) as u64);
+                u("preference", rd32(t, 20) as u64);
+            }
+            INFO_REQ => {
+                let n = (size - 8) / 4;
+                v.push(Rec { name: "requests", val: Val::S { off: 8, len: 4 * n, hash: crate::hash::hash_bytes(&t[8..8 + 4 * n]) } });
+                for i in 0..n.min(8) {
+                    v.push(Rec { name: "request", val: Val::U(rd32(t, 8 + 4 * i) as u64) });
+                }
+            }
+            _ => {}
+        }
+        v
+    }
+}
